@@ -1,6 +1,6 @@
 """Human-written texts for MANIFEST.json."""
 ENGINES = [
-    {"name": "S3-evmsim", "path": "/verif/sim/evmsim", "serves_properties": ["C02", "C05", "C12", "C15"],
+    {"name": "S3-evmsim", "path": "/verif/sim/evmsim", "serves_properties": ["C02", "C05", "C12", "C15", "C16"],
      "kind_free_text": "seeded EVM/state simulation through the real core.ApplyTransaction: grammar-built contract DAGs, every frame 'crashed' by gas cut at each recorded interpreter step / REVERT / INVALID, world digest vs deep-copy model; block batch on a drawn storage engine"},
     {"name": "S4-poolsim", "path": "/verif/sim/poolsim", "serves_properties": ["C19"],
      "kind_free_text": "controlled-scheduler simulation of the real TxPool: tx_pool.go is AST-rewritten at build time (tools/rewrite) so that every lock, channel op, select, go statement, ticker, clock read and pool-map range is a scheduler decision drawn from the tape; real goroutines, one runnable at a time, inside a synctest bubble; optional -race build"},
@@ -34,10 +34,10 @@ META = {
     },
     "C06": {
         "engine": "S5-chainsim", "design_ref": "DESIGN.md section 4 C06, section 3",
-        "technique": "deterministic whole-node simulation (seeded block/tx/reorg histories), invariant checked after every head change",
+        "technique": "deterministic whole-node simulation (seeded block/tx/reorg histories), invariant checked after every head change; second honest node over a simulated faulty network (reorder, duplicate, drop, partition, heal) that must re-execute A's canonical line to the same commitments",
         "text": ("Exploration: hundreds (quick) to tens of thousands (thorough) of seeded chain histories mixing Quai transfers, conversions, Qi spends, Qi/Quai coinbases and lockups, forks and reorgs are executed by the real node; "
                  "after every head change the UTXO root, set size and state roots in the header are recomputed from what is actually stored. Right level: the clause quantifies over histories and reorgs; failures need specific block contents."),
-        "note": "Trusted: harness scan + multiset recomputation; single node per run; goroutine interleavings inside Finalize are left to the Go runtime (not steered).",
+        "note": "Trusted: harness scan + multiset recomputation; goroutine interleavings inside Finalize are left to the Go runtime (not steered). Network half: the p2p stack is a stub, re-sending on heal stands in for the downloader.",
     },
     "C07": {
         "engine": "S5-chainsim", "design_ref": "DESIGN.md section 4 C07",
@@ -47,7 +47,7 @@ META = {
     },
     "C10": {
         "engine": "S5-chainsim", "design_ref": "DESIGN.md section 4 C10",
-        "technique": "deterministic whole-node simulation with seeded forks/reorgs; refinement check against a fresh node fed only the winning branch",
+        "technique": "deterministic whole-node simulation with seeded forks/reorgs; refinement check against a fresh node fed only the winning branch; replica agreement with a second honest node that received all branches over a simulated faulty network (reorder, duplicate, drop, partition, heal)",
         "text": ("Exploration: seeded pairs/trees of branches with spends of pre-fork outputs, outputs created and spent on one branch, coinbase lockups and conversions; after head switches the full chain-state key space is compared with a second node that followed the winning branch directly."),
         "note": "Trusted: image extraction; reorg depth limited by tape length (<= ~10); trimming depths shrunk by the regime but rarely reached in quick runs.",
     },
@@ -62,13 +62,13 @@ META = {
         "engine": "S5-chainsim", "design_ref": "DESIGN.md section 4 C09, section 2.7",
         "technique": "deterministic whole-node simulation with a byzantine block rewriter (one derived header field changed, re-sealed with real PoW) plus per-edge entropy/order invariants",
         "text": "Exploration: in seeded chain histories a simulated adversary with its own hash power presents blocks that deviate from the honest candidate in exactly one parent-derived header field; the node must refuse each; honest edges must show strictly increasing entropy and stable order.",
-        "note": "Zone-order candidates only; share-difficulty fields and clock skew not exercised (stated in the evidence rule).",
+        "note": "Full byzantine blocks are zone-order candidates; for dominant-order blocks the number rule of each coincident context is decided through that chain's header verification on re-sealed copies. Share-difficulty fields and clock skew not exercised (stated in the evidence rule).",
     },
     "C08": {
         "engine": "S5-chainsim", "design_ref": "DESIGN.md section 4 C08, section 2.7",
-        "technique": "deterministic whole-node simulation with a byzantine block rewriter (seal reused on changed content) plus independent PoW recomputation for every accepted block",
-        "text": "Exploration of the blake3 clause: reused seals on changed content are refused; every accepted block's hash is recomputed by the harness and compared with the target of its declared difficulty.",
-        "note": "AuxPoW / progpow / kawpow clauses are not decided (engines not run in this harness); said so in evidence assumptions.",
+        "technique": "deterministic whole-node simulation with a byzantine block rewriter (seal reused on changed content) plus independent PoW recomputation for every accepted block, workshare verdicts on copies re-sealed into bands around the share target, and a seal-coverage table over every header field in both layouts (finite tables on headers taken from the run)",
+        "text": "Exploration of the blake3 clause: reused seals on changed content are refused; every accepted block's hash is recomputed by the harness and compared with the target of its declared difficulty; a share is graded valid exactly when its hash is at or below 2^256/difficulty*2^k (pre-fork rule); changing any single header field moves the seal hash.",
+        "note": "AuxPoW / progpow / kawpow hashing and the post-fork share target (CalculateKawpowShareDiff) are not decided (engines not run, no independent statement of that target); said so in evidence assumptions.",
     },
     "C19": {
         "engine": "S4-poolsim", "design_ref": "DESIGN.md section 4 C19, section 2.4",
@@ -79,15 +79,15 @@ META = {
     },
     "C04": {
         "engine": "S5-chainsim", "design_ref": "DESIGN.md section 4 C04",
-        "technique": "deterministic whole-node simulation (zone, region and prime cores, forks and reorgs at every level); history check of emitted/delivered/executed ETXs against a FIFO queue model",
+        "technique": "deterministic whole-node simulation (zone, region and prime cores, forks and reorgs at every level); history check of emitted/delivered/executed ETXs against a FIFO queue model; byzantine pending-ETX batches pushed before the genuine one; the same history oracle on a second honest node fed over a faulty simulated network; FIFO model of the state's ETX queue across the growth of its index key",
         "text": "Exploration: seeded multi-level histories (several zone blocks between coincident blocks, forks and reorgs) with coinbase and conversion ETXs travelling zone -> prime -> zone; exactly-once, FIFO order, unaltered-in-transit and bounded-liveness are checked on the recorded history of the final canonical chain.",
         "note": "Single slice only: cross-zone routing and 'delivered to another zone' are not exercised (stated in evidence assumptions).",
     },
     "C16": {
         "engine": "S5-chainsim", "design_ref": "DESIGN.md section 4 C16",
-        "technique": "deterministic whole-node simulation; scope invariants on account state and UTXO set after every head change",
+        "technique": "deterministic whole-node simulation with scope invariants on account state and UTXO set after every head change and the validator's verdict on a Qi payment to a Quai-ledger payee; deterministic simulation of transaction execution (creations with salts ground for Qi addresses, transfers and self-destructs aimed out of scope, gas cuts) with creation-scope and state-scope oracles; a finite address-classification table over every construction path",
         "text": "Exploration of the state clauses: no out-of-zone or Qi-ledger account appears in zone state, every UTXO owner is an in-zone Qi address, in seeded histories with conversions, Qi coinbases and reorgs.",
-        "note": "Constructor/decoder agreement and CREATE/CREATE2 scoping are not decided here.",
+        "note": "Constructor/decoder agreement is decided on a boundary table only (a pure-function claim over 2^160 addresses is outside this technique); Address.UnmarshalJSON / DecodeRLP classify against a fixed location and are not in the table.",
     },
     "C01": {
         "engine": "S5-chainsim", "design_ref": "DESIGN.md section 4 C01",
@@ -124,24 +124,24 @@ META = {
         "engine": "S5-chainsim", "design_ref": "DESIGN.md section 4 C20",
         "technique": "deterministic whole-node simulation with prime in the loop; per-conversion state machine checked over the recorded history (emitted -> repriced|refunded -> credited after the lock period)",
         "text": "Exploration: seeded mixes of both conversion directions inside one prime block, tight and loose slippage bounds, bursts, forks and reorgs, both sides of the conversion-discount fork; every conversion must have exactly one outcome with the stated amounts, heights and bounds.",
-        "note": "One open known finding (historic side of ConversionSlipChangeBlock over-credits). Exchange-rate trajectories are frozen in these runs.",
+        "note": "One open known finding (historic side of ConversionSlipChangeBlock over-credits). Exchange-rate trajectories are frozen in these runs; the rate function itself is decided on both sides of every conversion-related fork and for rounding at unit boundaries by finite tables. The size of the flow discount is not constrained by the property and not checked.",
     },
     "C14": {
         "engine": "S5-chainsim", "design_ref": "DESIGN.md section 4 C14",
-        "technique": "deterministic whole-node simulation; codec round-trip monitors on every object that crosses the simulated wire, the databases and the JSON-RPC form",
+        "technique": "deterministic whole-node simulation; codec round-trip monitors (protobuf, typed RLP, JSON, rawdb) with field-by-field equality on every object that crosses the simulated wire, the databases and the JSON-RPC form, including receipts read back from the node's database",
         "text": "Exploration over the objects real runs produce (all transaction kinds, all block views, all three contexts): wire, disk and JSON round trips preserve hash, content and bytes; rewritten blocks never collide with the honest hash.",
-        "note": "Four JSON defects found and repaired (one fix commit). Objects not produced by runs are not covered.",
+        "note": "Eight codec defects found and repaired (five fix commits: header / work-object-header / access-tuple / Qi output JSON, Quai work nonce JSON, Qi work fields JSON, receipt RLP, QuaiTx RLP); two open known findings (receipt bloom of ETX logs, Qi typed-RLP without work fields). Objects are those runs produce plus work-field presence copies.",
     },
     "C03": {
         "engine": "S5-chainsim", "design_ref": "DESIGN.md section 4 C03",
         "technique": "deterministic whole-node simulation; in-flight rewriting of every client-signed transaction (single signed field / signature value / chain id) checked against sender recovery, the live pool and the node's Qi validation",
         "text": "Exploration over the transactions real runs sign: no single-field rewrite, signature edge value or foreign chain id keeps the original sender; the sender cache is chain-id safe; Qi transactions are bound to their inputs, outputs, data and chain id.",
-        "note": "The signature algebra itself is a pure function and is only sampled; stated in the evidence.",
+        "note": "The signature algebra itself is a pure function and is only sampled (edge table incl. recovery ids equal modulo 2^8 / 2^32 / 2^64, foreign chain ids incl. 0); stated in the evidence.",
     },
     "C15": {
         "engine": "S5-chainsim", "design_ref": "DESIGN.md section 4 C15",
         "technique": "deterministic simulation with frame-corruption faults on real traffic through the production decode/validation pipeline (no-panic oracle) plus a step tracer that prices every memory expansion against the gas charged",
         "text": ("Exploration: corrupted block, header and transaction frames derived from the traffic of seeded whole-node runs are fed to the production receive path; and seeded EVM programs with gas cuts are traced step by step to check that interpreter memory only grows through steps charged at least the expansion price."),
-        "note": "One defect repaired (pool panic on a crafted Qi transaction), one open known finding (ETX memory window is not priced). Decoders not on the block/transaction path (request/response, AuxPoW, RLP, JSON) and the memory-proportionality clause are not decided - stated in the evidence.",
+        "note": "One defect repaired (pool panic on a crafted Qi transaction), one open known finding (ETX memory window is not priced). AuxPoW donor frames are fed through the parser sequence of the share validator (the validator wrapper itself is not run). Request/response frames, RLP and JSON argument decoders and the memory-proportionality clause are not decided - stated in the evidence.",
     },
 }
